@@ -120,6 +120,7 @@ func expectedPageMap(w walInfo, start int, budget int64) (map[uint32]int64, uint
 	m := map[uint32]int64{}
 	tx := map[uint32]int64{}
 	var commit uint32
+	var end int64 // end of the last consumed commit frame: where the next read resumes
 	fs := int64(24 + w.PageSize)
 	startOff := int64(32) + int64(start)*fs
 	for i := start; i < len(w.Frames); i++ {
@@ -131,6 +132,7 @@ func expectedPageMap(w walInfo, start int, budget int64) (map[uint32]int64, uint
 			}
 			tx = map[uint32]int64{}
 			commit = f.Commit
+			end = f.Off + fs
 			if budget > 0 && f.Off+fs-startOff >= budget {
 				break
 			}
@@ -139,12 +141,6 @@ func expectedPageMap(w walInfo, start int, budget int64) (map[uint32]int64, uint
 	for k := range m {
 		if k > commit {
 			delete(m, k)
-		}
-	}
-	var end int64
-	for _, off := range m {
-		if off+fs > end {
-			end = off + fs
 		}
 	}
 	return m, commit, end
@@ -413,8 +409,9 @@ func runC09(t testingT, p *Program) *Result {
 		rd, err := litestream.NewWALReader(bytes.NewReader(c.WAL), logger)
 		got := map[uint32]int64{}
 		var gotCommit uint32
+		var gotEnd int64
 		if err == nil {
-			got, _, gotCommit, _, err = rd.VerifPageMap(ctx, 0)
+			got, gotEnd, gotCommit, _, err = rd.VerifPageMap(ctx, 0)
 			if err != nil {
 				res.Probes["reader_error"]++
 				got = map[uint32]int64{}
@@ -422,10 +419,14 @@ func runC09(t testingT, p *Program) *Result {
 		} else {
 			res.Probes["reader_rejects_header"]++
 		}
-		want, wantCommit, _ := expectedPageMap(w, 0, 0)
+		want, wantCommit, wantEnd := expectedPageMap(w, 0, 0)
 		res.Checks++
 		if !mapsEqual(got, want) || (len(want) > 0 && gotCommit != wantCommit) {
 			res.Violation = fail("pagemap-differs-from-decoder", "%s: WALReader.pageMap returned %s commit=%d; the independent decoder expects %s commit=%d", desc, mapStr(got), gotCommit, mapStr(want), wantCommit)
+			break
+		}
+		if len(want) > 0 && gotEnd != wantEnd {
+			res.Violation = fail("pagemap-cursor", "%s: WALReader.pageMap reports it consumed the WAL up to offset %d; the last valid commit frame ends at %d (the next copy would resume at the wrong place)", desc, gotEnd, wantEnd)
 			break
 		}
 		// real SQLite on the same bytes
@@ -466,14 +467,18 @@ func runC09(t testingT, p *Program) *Result {
 			if err != nil {
 				break
 			}
-			got, _, gotCommit, _, err := rd.VerifPageMap(ctx, budget)
+			got, gotEnd, gotCommit, _, err := rd.VerifPageMap(ctx, budget)
 			if err != nil {
 				continue
 			}
-			want, wantCommit, _ := expectedPageMap(w, 0, budget)
+			want, wantCommit, wantEnd := expectedPageMap(w, 0, budget)
 			res.Checks++
 			if !mapsEqual(got, want) || (len(want) > 0 && gotCommit != wantCommit) {
 				res.Violation = fail("pagemap-budget", "%s budget=%d: pageMap returned %s commit=%d; expected the shortest commit-aligned prefix reaching the budget %s commit=%d", desc, budget, mapStr(got), gotCommit, mapStr(want), wantCommit)
+				break
+			}
+			if len(want) > 0 && gotEnd != wantEnd {
+				res.Violation = fail("pagemap-cursor", "%s budget=%d: pageMap reports it consumed the WAL up to offset %d; the last consumed commit frame ends at %d", desc, budget, gotEnd, wantEnd)
 				break
 			}
 		}
@@ -494,16 +499,93 @@ func runC09(t testingT, p *Program) *Result {
 			if r.Chance(0.4) {
 				budget = int64(r.Intn(int(fs)*4) + 1)
 			}
-			got, _, gotCommit, _, err := rd.VerifPageMap(ctx, budget)
+			got, gotEnd, gotCommit, _, err := rd.VerifPageMap(ctx, budget)
 			if err != nil {
 				continue
 			}
-			want, wantCommit, _ := expectedPageMap(w, s, budget)
+			want, wantCommit, wantEnd := expectedPageMap(w, s, budget)
 			res.Checks++
 			res.Probes["offset_reads"]++
 			if !mapsEqual(got, want) || (len(want) > 0 && gotCommit != wantCommit) {
 				res.Violation = fail("pagemap-offset", "%s start frame %d budget=%d: pageMap returned %s commit=%d; expected %s commit=%d", desc, s, budget, mapStr(got), gotCommit, mapStr(want), wantCommit)
 				break
+			}
+			if len(want) > 0 && gotEnd != wantEnd {
+				res.Violation = fail("pagemap-cursor", "%s start frame %d budget=%d: pageMap reports it consumed the WAL up to offset %d; the last consumed commit frame ends at %d", desc, s, budget, gotEnd, wantEnd)
+				break
+			}
+		}
+		if res.Violation != nil {
+			break
+		}
+		// (5) incremental consumption, as DB.Sync does it: the WAL becomes visible in
+		//     growing prefixes (a writer appending, including mid-transaction
+		//     spills), every pass resumes at the offset the previous pass
+		//     reported; the union of the passes must equal one full read.
+		if ci%2 == 1 {
+			acc := map[uint32]int64{}
+			var accCommit uint32
+			cursor := int64(32)
+			vis := 32 + r.Intn(len(c.WAL)-31)
+			passes, bad := 0, false
+			for step := 0; step < 100000; step++ {
+				var rd *litestream.WALReader
+				var err error
+				if cursor == 32 {
+					rd, err = litestream.NewWALReader(bytes.NewReader(c.WAL[:vis]), logger)
+				} else {
+					rd, err = litestream.NewWALReaderWithOffset(ctx, bytes.NewReader(c.WAL[:vis]), cursor, salt1, salt2, logger)
+				}
+				if err != nil {
+					bad = true
+					break
+				}
+				budget := int64(0)
+				if r.Chance(0.5) {
+					budget = int64(r.Intn(int(fs)*3) + 1)
+				}
+				m, end, cm, _, err := rd.VerifPageMap(ctx, budget)
+				if err != nil {
+					bad = true
+					break
+				}
+				for k, v := range m {
+					acc[k] = v
+				}
+				if len(m) > 0 {
+					accCommit = cm
+					passes++
+				}
+				progressed := end > cursor
+				if progressed {
+					cursor = end
+				}
+				if vis < len(c.WAL) {
+					vis += 1 + r.Intn(int(fs)*3)
+					if vis > len(c.WAL) {
+						vis = len(c.WAL)
+					}
+				} else if !progressed {
+					break
+				}
+			}
+			if !bad {
+				for k := range acc {
+					if k > accCommit {
+						delete(acc, k)
+					}
+				}
+				res.Checks++
+				res.Probes["incremental_reads"]++
+				if passes >= 2 {
+					res.Probes["incremental_multi_pass"]++
+				}
+				if !mapsEqual(acc, want) || (len(want) > 0 && accCommit != wantCommit) {
+					res.Violation = fail("pagemap-incremental", "%s: copying the WAL in %d resumed passes (each from the offset the previous one reported) yields %s commit=%d; one full read yields %s commit=%d", desc, passes, mapStr(acc), accCommit, mapStr(want), wantCommit)
+					break
+				}
+			} else {
+				res.Probes["incremental_reader_error"]++
 			}
 		}
 		if res.Violation != nil {
